@@ -5,6 +5,7 @@ import (
 	"fmt"
 	"math"
 	"reflect"
+	"sort"
 	"strings"
 
 	stackage "github.com/JesseCoretta/go-stackage"
@@ -213,8 +214,13 @@ type c08ValCase struct {
 	Args   string `json:"args"`
 }
 
+// selfRef stands for "the receiver itself" among the argument values (0 the same handle, 1 an alias of
+// it, 2 a pointer to it, 3 a Condition whose expression is the receiver): two names, one structure.
+type selfRef int
+
 func c08Receivers() map[string]func() any {
 	return map[string]func() any{
+		"LIST cap mutex": func() any { return stackage.List(8).SetMutex().Push("a", "b") },
 		"AND": func() any {
 			return stackage.And().Push("a", stackage.Or().Push("b"), stackage.Cond("k", stackage.Eq, "v"))
 		},
@@ -253,6 +259,18 @@ func followUps(x any, twins ...any) (string, string) {
 			{"IsEqual(twin)", func() { tv.IsEqual(twin) }}, {"Valid", func() { tv.Valid() }}, {"IsNesting", func() { tv.IsNesting() }},
 			{"Traverse(0)", func() { tv.Traverse(0) }}, {"Traverse(0,0)", func() { tv.Traverse(0, 0) }}, {"Front", func() { tv.Front() }}, {"Back", func() { tv.Back() }},
 			{"Less(0,1)", func() { tv.Less(0, 1) }}, {"Len", func() { tv.Len() }}, {"Kind", func() { tv.Kind() }},
+			{"Less(every pair)", func() {
+				for i := -1; i <= tv.Len(); i++ {
+					for j := -1; j <= tv.Len(); j++ {
+						tv.Less(i, j)
+					}
+				}
+			}},
+			{"sort.Stable", func() {
+				if !tv.IsReadOnly() {
+					sort.Stable(tv)
+				}
+			}},
 			{"Reveal", func() { tv.Reveal() }}, {"Defrag", func() { tv.Defrag() }}, {"String again", func() { _ = tv.String() }}, {"Pop", func() { tv.Pop() }}, {"Reset", func() { tv.Reset() }},
 		}
 	case stackage.Condition:
@@ -276,10 +294,11 @@ func followUps(x any, twins ...any) (string, string) {
 func c08ValueCases(c *Ctx, run bool) (n int) {
 	recvs := c08Receivers()
 	aw := awkwardAny()
+	awSelf := append(append([]namedValue{}, aw...), nv("SELF", selfRef(0)), nv("SELF as alias", selfRef(1)), nv("pointer to SELF", selfRef(2)), nv("Condition over SELF", selfRef(3)))
 	pick := func(t reflect.Type, pos int) []namedValue {
 		switch t {
 		case anyType:
-			return aw
+			return awSelf
 		case opType:
 			return []namedValue{{"Eq", reflect.ValueOf(stackage.Eq)}, {"nil-op", reflect.Zero(opType)}, nv("userOp{}", userOp{}), nv("ComparisonOperator(200)", stackage.ComparisonOperator(200)), nv("sliceOp", sliceOp{"=~", "ctx"})}
 		case intType:
@@ -342,8 +361,38 @@ func c08ValRun(c *Ctx, mk func() any, cs c08ValCase, args []reflect.Value, count
 		c.Traces.Add(1)
 	}
 	desc := fmt.Sprintf("%s.%s(%s)", cs.Recv, cs.Method, cs.Args)
-	callMethod(pw, cs.Method, args)
-	_, p := callMethod(pv, cs.Method, args)
+	argsX, argsY, usesSelf := c08Self(args, x), c08Self(args, y), false
+	for i := range args {
+		if args[i].IsValid() && args[i].Type() == reflect.TypeOf(selfRef(0)) {
+			usesSelf = true
+		}
+	}
+	if usesSelf && cs.Method != "Transfer" && cs.Method != "IsEqual" {
+		// methods that store their argument (Push, Insert, Replace, SetExpression, Marshal) would build a
+		// structure that contains itself; cyclic structures are outside the statement's value domain
+		return
+	}
+	if usesSelf && !strings.Contains(cs.Recv, "cap") {
+		// a structure handed to itself is only tried on capacity-limited receivers, where a call
+		// that feeds on its own output still comes to an end
+		return
+	}
+	var lenBefore, capBefore int
+	if sx, ok := x.(stackage.Stack); ok {
+		lenBefore, capBefore = sx.Len(), sx.Cap()
+	}
+	callMethod(pw, cs.Method, argsY)
+	_, p := callMethod(pv, cs.Method, argsX)
+	if sx, ok := x.(stackage.Stack); ok && p == "" && usesSelf && cs.Method == "Transfer" && !strings.Contains(cs.Args, "Condition over") {
+		// a stack transferred onto itself holds its elements twice if they fit, and is unchanged otherwise
+		want := lenBefore
+		if capBefore < 0 || 2*lenBefore <= capBefore {
+			want = 2 * lenBefore
+		}
+		if got := sx.Len(); got != want {
+			c.Violation("self-transfer-corrupts", fmt.Sprintf("%s: the stack held %d elements (capacity %d) and holds %d afterwards, want %d (content %s)", desc, lenBefore, capBefore, got, want, showList(contents(sx))), cs, len(desc))
+		}
+	}
 	if p != "" {
 		if strings.Contains(p, "harness/gen.go") && strings.Contains(p, "ptrOp") {
 			return // the panic is inside the user's own nil-receiver method
@@ -360,6 +409,40 @@ func c08ValRun(c *Ctx, mk func() any, cs c08ValCase, args []reflect.Value, count
 		c.Nontrivial(desc)
 		c.Outcome(cs.Method)
 	}
+}
+
+// c08Self substitutes the receiver for the selfRef placeholders.
+func c08Self(args []reflect.Value, recv any) []reflect.Value {
+	out := make([]reflect.Value, len(args))
+	for i, a := range args {
+		out[i] = a
+		if !a.IsValid() || a.Type() != reflect.TypeOf(selfRef(0)) {
+			continue
+		}
+		var v any = recv
+		switch tv := recv.(type) {
+		case stackage.Stack:
+			switch a.Interface().(selfRef) {
+			case 1:
+				v = StackAlias(tv)
+			case 2:
+				v = &tv
+			case 3:
+				v = stackage.Cond("self", stackage.Eq, tv)
+			}
+		case stackage.Condition:
+			switch a.Interface().(selfRef) {
+			case 1:
+				v = CondAlias(tv)
+			case 2:
+				v = &tv
+			case 3:
+				v = stackage.Cond("self", stackage.Eq, tv)
+			}
+		}
+		out[i] = reflect.ValueOf(v)
+	}
+	return out
 }
 
 // awkClass reduces an argument description to the awkward value's class for violation keys.
